@@ -294,6 +294,12 @@ class HookCounter:
     def call_weight(self, call: ast.Call, fn: ast.AST) -> int:
         if last_attr(call) == HOOK:
             return 1
+        if isinstance(call.func, ast.Name):
+            # run_hook = self.run_async_work_finished_hook; run_hook()
+            for a in walk_body(fn):
+                if isinstance(a, ast.Assign) and len(a.targets) == 1 and isinstance(a.targets[0], ast.Name) \
+                        and a.targets[0].id == call.func.id and isinstance(a.value, ast.Attribute) and a.value.attr == HOOK:
+                    return 1
         w = 0
         for t in self.targets(call, fn):
             n = self.normal_counts(t)
